@@ -7,7 +7,9 @@ import (
 	"log"
 	"os"
 	"path/filepath"
+	"regexp"
 	"runtime"
+	"sort"
 	"strings"
 	"sync"
 	"syscall"
@@ -15,6 +17,8 @@ import (
 	"unsafe"
 
 	"github.com/robfig/soy"
+	"github.com/robfig/soy/ast"
+	"github.com/robfig/soy/data"
 	"github.com/robfig/soy/soyhtml"
 	"github.com/robfig/soy/template"
 )
@@ -57,9 +61,11 @@ type Result struct {
 	NF       int        `json:"nf"`
 	Sched    []Write    `json:"sched"`
 	Trace    []Event    `json:"trace"`
-	Obs      [][]string `json:"obs"`  // rendered versions at the quiescence after each write
-	Disk     [][]string `json:"disk"` // what the harness put on disk, after each write
-	Logs     []string   `json:"logs"` // the raw log lines, for the replay case
+	Obs      [][]string `json:"obs"`        // rendered versions at the quiescence after each write
+	ObsX     []string   `json:"obsx"`       // parse-pass tags and global seen in those renders: "p1+p2|g"
+	Passes   []int      `json:"pass_calls"` // invocations of each registered parse pass
+	Disk     [][]string `json:"disk"`       // what the harness put on disk, after each write
+	Logs     []string   `json:"logs"`       // the raw log lines, for the replay case
 	Trouble  string     `json:"trouble,omitempty"`
 	SettleUS []int64    `json:"settle_us,omitempty"`
 }
@@ -67,12 +73,21 @@ type Result struct {
 // ModelMethod maps a harness method to the method of SoyWatch.
 func ModelMethod(m string) string { return strings.TrimSuffix(m, "_slow") }
 
+// GlobalName/GlobalValue: every template prints this global; PassTags: the
+// registered parse passes, each appends its tag as raw text to every template.
+const (
+	GlobalName  = "GV"
+	GlobalValue = "g"
+)
+
+var PassTags = []string{"p1", "p2"}
+
 func source(f int, v string) string {
-	body := v
+	body := v + "-{" + GlobalName + "}"
 	if v == "bad" {
 		body = "{if}"
 	}
-	return fmt.Sprintf("{namespace w.f%d}\n\n/** prints the version of this file */\n{template .t}\n%s\n{/template}\n", f, body)
+	return fmt.Sprintf("{namespace w.f%d}\n\n/** prints the version of this file and a global */\n{template .t}\n%s\n{/template}\n", f, body)
 }
 
 func tmplName(f int) string { return fmt.Sprintf("w.f%d.t", f) }
@@ -116,22 +131,55 @@ func (r *recorder) lines() int {
 	return r.nlines
 }
 
-func renderAll(t *soyhtml.Tofu, nf int) []string {
-	out := make([]string, nf)
+// view is what the templates of one registry show: per file the version, and
+// (agreeing over the files, the registry is compiled as a whole) the tags of
+// the parse passes it went through and the value of the global.
+type view struct {
+	vers []string
+	p    []string
+	g    string
+}
+
+var reOut = regexp.MustCompile(`^(v1|v2)-([^+]*)((?:\+[a-z0-9]+)*)$`)
+
+func renderAll(t *soyhtml.Tofu, nf int) view {
+	v := view{vers: make([]string, nf), p: []string{}, g: "none"}
+	first := true
 	for f := 1; f <= nf; f++ {
 		var buf bytes.Buffer
+		v.vers[f-1] = "none"
 		if err := t.Render(&buf, tmplName(f), nil); err != nil {
-			out[f-1] = "none"
 			continue
 		}
-		s := strings.TrimSpace(buf.String())
-		if s != "v1" && s != "v2" {
-			s = "none"
+		m := reOut.FindStringSubmatch(strings.TrimSpace(buf.String()))
+		if m == nil {
+			continue
 		}
-		out[f-1] = s
+		v.vers[f-1] = m[1]
+		tags := []string{}
+		if m[3] != "" {
+			tags = strings.Split(m[3][1:], "+")
+		}
+		sort.Strings(tags)
+		g := m[2]
+		if g == "" {
+			g = "none"
+		}
+		if first {
+			v.p, v.g, first = tags, g, false
+			continue
+		}
+		if strings.Join(tags, "+") != strings.Join(v.p, "+") {
+			v.p = []string{"MIXED"}
+		}
+		if g != v.g {
+			v.g = "MIXED"
+		}
 	}
-	return out
+	return v
 }
+
+func (v view) key() string { return strings.Join(v.p, "+") + "|" + v.g }
 
 // inotifyFD finds the (only) inotify descriptor of this process.
 func inotifyFD() (int, error) {
@@ -334,7 +382,18 @@ func RunJob(job Job) (res *Result) {
 	rec := &recorder{}
 	d := &driver{job: job, rec: rec, res: res, budget: 20 * time.Second}
 	soy.Logger = log.New(rec, "", 0)
-	bundle := soy.NewBundle().WatchFiles(true)
+	bundle := soy.NewBundle().WatchFiles(true).AddGlobalsMap(data.Map{GlobalName: data.String(GlobalValue)})
+	res.Passes = make([]int, len(PassTags))
+	for i, tag := range PassTags {
+		i, tag := i, tag
+		bundle.AddParsePass(func(reg template.Registry) error {
+			res.Passes[i]++
+			for _, t := range reg.Templates {
+				t.Node.Body.Nodes = append(t.Node.Body.Nodes, &ast.RawTextNode{Text: []byte("+" + tag)})
+			}
+			return nil
+		})
+	}
 	disk := make([]string, job.NF)
 	for f := 1; f <= job.NF; f++ {
 		if err := os.WriteFile(d.path(f), []byte(source(f, "v1")), 0o644); err != nil {
@@ -344,16 +403,14 @@ func RunJob(job Job) (res *Result) {
 		bundle.AddTemplateFile(d.path(f))
 	}
 	bundle.SetRecompilationCallback(func(reg *template.Registry) {
-		vers := renderAll(soyhtml.NewTofu(reg), job.NF)
+		arg := renderAll(soyhtml.NewTofu(reg), job.NF)
 		// what is visible through the Tofu while the callback runs (this is the
 		// recompiler goroutine itself: no race with the swap)
-		var vis []string
+		vis := arg
 		if d.tofu != nil {
 			vis = renderAll(d.tofu, job.NF)
-		} else {
-			vis = vers
 		}
-		rec.add(Event{"ev": "callback", "vers": vers, "vis": vis})
+		rec.add(Event{"ev": "callback", "vers": arg.vers, "p": arg.p, "g": arg.g, "vis": vis.vers, "visp": vis.p, "visg": vis.g})
 	})
 	tofu, err := bundle.CompileToTofu()
 	if err != nil {
@@ -366,7 +423,7 @@ func RunJob(job Job) (res *Result) {
 	if err := d.settle(); err != nil {
 		return fail("initial: %v", err)
 	}
-	if got := renderAll(tofu, job.NF); strings.Join(got, ",") != strings.Join(disk, ",") {
+	if got := renderAll(tofu, job.NF); strings.Join(got.vers, ",") != strings.Join(disk, ",") {
 		return fail("initial render %v", got)
 	}
 	for i, w := range job.Sched {
@@ -384,8 +441,9 @@ func RunJob(job Job) (res *Result) {
 		}
 		// the recompiler is parked: rendering does not race with a swap
 		r := renderAll(tofu, job.NF)
-		rec.add(Event{"ev": "quiesce", "r": r})
-		res.Obs = append(res.Obs, r)
+		rec.add(Event{"ev": "quiesce", "r": r.vers, "p": r.p, "g": r.g})
+		res.Obs = append(res.Obs, r.vers)
+		res.ObsX = append(res.ObsX, r.key())
 		res.Disk = append(res.Disk, append([]string(nil), disk...))
 	}
 	rec.mu.Lock()
